@@ -56,13 +56,16 @@ Definition run_transition (E : Env) (f : fork) (pre : bytes) (bf : fork) (blk : 
       end
   end.
 
-Definition run_genesis (E : Env) (eth1_block_hash : bytes) (eth1_timestamp : N) (deposits : bytes) : result * bool :=
+(* third component: true iff the registry has fewer validators than SLOTS_PER_EPOCH (zrnt documents that it
+   refuses to build such a state because it cannot derive a full epochs context for it) *)
+Definition run_genesis (E : Env) (eth1_block_hash : bytes) (eth1_timestamp : N) (deposits : bytes) : result * bool * bool :=
   match deserialize (TList DepositT (2 ^ 32)) deposits with
-  | None => (RBadInput "deposits", false)
+  | None => (RBadInput "deposits", false, false)
   | Some v =>
       match initialize_beacon_state_from_eth1 E eth1_block_hash eth1_timestamp (vseq v) with
-      | None => (RReject, false)
-      | Some st => (finish E (Some (Phase0, st)), is_valid_genesis_state E st)
+      | None => (RReject, false, false)
+      | Some st => (finish E (Some (Phase0, st)), is_valid_genesis_state E st,
+                    N.of_nat (length (validators st)) <? SLOTS_PER_EPOCH (cfg E))
       end
   end.
 
@@ -121,3 +124,82 @@ Section EpcView.
   Definition run_epc_view (f : fork) (bs : bytes) : option epc_view :=
     match decode_state c f bs with Some st => Some (spec_epc_view f st) | None => None end.
 End EpcView.
+
+(* ---- diagnostics: name the first stage of state_transition at which the Spec rejects ---- *)
+Section Diagnose.
+  Variable E : Env.
+  Let c := cfg E.
+  Definition first_failing_op (f : fork) (st : BeaconState) (name : string) (ops : list value)
+             (fn : BeaconState -> value -> option BeaconState) : BeaconState + string :=
+    (fix go (i : nat) (ops : list value) (st : BeaconState) : BeaconState + string :=
+       match ops with
+       | [] => inl st
+       | op :: ops' => match fn st op with
+                       | Some st' => go (S i) ops' st'
+                       | None => inr (String.append name (String.append "[" (String (Ascii.ascii_of_nat (48 + i)) "]")))
+                       end
+       end) 0%nat ops st.
+  Definition diagnose_block (f : fork) (st : BeaconState) (blk : value) : string :=
+    let body := vfield blk 4 in
+    match process_block_header E f st blk with
+    | None => "process_block_header"
+    | Some st =>
+    match (match f with
+           | Phase0 | Altair => inl st
+           | Bellatrix => if is_execution_enabled E f st body
+                          then match process_execution_payload E f st body with Some s => inl s | None => inr "process_execution_payload" end
+                          else inl st
+           | _ => match process_withdrawals E f st (body_get E f body "execution_payload") with
+                  | None => inr "process_withdrawals"
+                  | Some st => match process_execution_payload E f st body with Some s => inl s | None => inr "process_execution_payload" end
+                  end
+           end) with
+    | inr e => e
+    | inl st =>
+    match process_randao E f st body with
+    | None => "process_randao"
+    | Some st =>
+    let st := process_eth1_data E f st body in
+    let deposits := vseq (body_get E f body "deposits") in
+    if negb (N.of_nat (length deposits) =? N.min (MAX_DEPOSITS c) (e_deposit_count (eth1_data st) - eth1_deposit_index st))
+    then "deposit-count" else
+    match first_failing_op f st "proposer_slashing" (vseq (body_get E f body "proposer_slashings")) (process_proposer_slashing E f) with
+    | inr e => e | inl st =>
+    match first_failing_op f st "attester_slashing" (vseq (body_get E f body "attester_slashings")) (process_attester_slashing E f) with
+    | inr e => e | inl st =>
+    match first_failing_op f st "attestation" (vseq (body_get E f body "attestations")) (process_attestation E f) with
+    | inr e => e | inl st =>
+    match first_failing_op f st "deposit" deposits (process_deposit E f) with
+    | inr e => e | inl st =>
+    match first_failing_op f st "voluntary_exit" (vseq (body_get E f body "voluntary_exits")) (process_voluntary_exit E f) with
+    | inr e => e | inl st =>
+    match (if fork_ge f Capella
+           then first_failing_op f st "bls_to_execution_change" (vseq (body_get E f body "bls_to_execution_changes")) (process_bls_to_execution_change E)
+           else inl st) with
+    | inr e => e | inl st =>
+    if fork_ge f Altair
+    then match process_sync_aggregate E st (body_get E f body "sync_aggregate") with None => "process_sync_aggregate" | Some _ => "accepted" end
+    else "accepted"
+    end end end end end end end end end.
+
+  Definition diagnose_transition (f : fork) (pre : bytes) (bf : fork) (blk : bytes) (validate : bool) : string :=
+    match decode_state c f pre, deserialize (SignedBeaconBlockT c bf) blk with
+    | Some st, Some sb =>
+        let b := vfield sb 0 in
+        match process_slots E f st (vuint (vfield b 0)) with
+        | None => "process_slots"
+        | Some (f', st1) =>
+            if negb (fork_idx f' =? fork_idx bf) then "block-fork-differs-from-state-fork"
+            else if validate && negb (verify_block_signature E f' st1 sb) then "block-signature"
+            else match diagnose_block f' st1 b with
+                 | "accepted" =>
+                     match process_block E f' st1 b with
+                     | Some st2 => if validate && negb (bytes_eqb (vbytes (vfield b 3)) (state_root E f' st2)) then "state-root" else "accepted"
+                     | None => "process_block(?)"
+                     end
+                 | e => e
+                 end
+        end
+    | _, _ => "undecodable"
+    end.
+End Diagnose.
